@@ -15,7 +15,7 @@ import (
 
 func init() {
 	Registry["C14"] = Set{
-		Explanation: "Decides structural clauses of remote failure detection: X1 the node-down chain — the goroutine serving a connection reaches unregisterConnection on every exit including its recover path, that function deletes the connection and reaches RouteNodeDown, which drains the relations with CleanupNode and sends one exit (links) / one down message with High priority (monitors) per consumer, every such message carrying ErrNoConnection; X2 incarnation guard vs ownership on raw frames — an identifier the reader rebuilds with its own creation must be guarded by the writer against the peer's creation, one the reader rebuilds with the peer's creation must not be (a wrongly guarded frame is never sent, an unguarded one lets identifiers of an earlier incarnation through); X3 the type switches that fan out node-down/termination cover every static target type ever passed to AddLink/AddMonitor; X4 every wait for a remote result or response is a select with a timer case (requests in flight end within their timeout). Added while probing: X1 the node-down send loops walk the whole consumer lists CleanupNode returned; X2b the request/link/monitor methods of a connection refuse identifiers of another incarnation before sending; X4 a pooled timer (lib.TakeTimer) is re-armed by Reset on every path to the select. X5 every channel type that is the target of a non-blocking send (MessageResult, response) is created buffered, so a reply that arrives before the requester blocks in its wait is kept. X6 every link of a connection is closed at termination: Terminate sets the terminated flag under the pool lock and closes the whole pool, Join tests the flag and appends inside one critical section of that lock, and the dialer closes a link Join refused. X7 no critical section of the connection's, the network's or the permission tables' locks calls anything that takes the same lock again (a self-deadlock there hangs every request on the connection).",
+		Explanation: "Decides structural clauses of remote failure detection: X1 the node-down chain — the goroutine serving a connection reaches unregisterConnection on every exit including its recover path, that function deletes the connection and reaches RouteNodeDown, which drains the relations with CleanupNode and sends one exit (links) / one down message with High priority (monitors) per consumer, every such message carrying ErrNoConnection; X2 incarnation guard vs ownership on raw frames — an identifier the reader rebuilds with its own creation must be guarded by the writer against the peer's creation, one the reader rebuilds with the peer's creation must not be (a wrongly guarded frame is never sent, an unguarded one lets identifiers of an earlier incarnation through); X3 the type switches that fan out node-down/termination cover every static target type ever passed to AddLink/AddMonitor; X4 every wait for a remote result or response is a select with a timer case (requests in flight end within their timeout). Added while probing: X1 the node-down send loops walk the whole consumer lists CleanupNode returned; X2b the request/link/monitor methods of a connection refuse identifiers of another incarnation before sending; X4 a pooled timer (lib.TakeTimer) is re-armed by Reset on every path to the select. X5 every channel type that is the target of a non-blocking send (MessageResult, response) is created buffered, so a reply that arrives before the requester blocks in its wait is kept. X6 every link of a connection is closed at termination: Terminate sets the terminated flag under the pool lock and closes the whole pool, Join tests the flag and appends inside one critical section of that lock, and the dialer closes a link Join refused. X7 no critical section of the connection's, the network's or the permission tables' locks calls anything that takes the same lock again (a self-deadlock there hangs every request on the connection). The re-dial of a pool link is bounded by progress (serve's result is used and the re-dial sits behind a constant bound), so a peer that dropped the connection but keeps running is eventually reported down.",
 		NotDecided: []string{
 			"timing (that the timeout elapses), TCP-level detection of a dead peer",
 			"restart of a peer under the same name within one second (creation is in seconds)",
@@ -603,7 +603,7 @@ func c14Timers(p *load.Program, r *core.Report) {
 // open, and the peer never learns that this node stopped).
 func c14PoolTermination(p *load.Program, r *core.Report) {
 	rule := "C14.X6 pool-closed-on-termination"
-	r.Floor(rule, 3)
+	r.Floor(rule, 4)
 	isLockOp := func(in ssa.Instruction, name string) bool {
 		cc := callCommon(in)
 		if cc == nil {
@@ -700,6 +700,85 @@ func c14PoolTermination(p *load.Program, r *core.Report) {
 				r.Bad(rule, key, fname(join), p.Pos(test.Pos()), inst, "the lock is released between the test and the append")
 			} else {
 				r.OK(rule, key, fname(join), p.Pos(test.Pos()), inst, "test and append inside one critical section")
+			}
+		}
+	}
+	// the re-dial loop gives up: a peer that dropped the connection but keeps running accepts every
+	// re-dialled link at the handshake level and closes it at once; without a bound the link goroutine
+	// re-dials forever, the connection's wait group never drains and the node-down never happens
+	{
+		key := "C14.X6|Join|redial-bounded"
+		inst := "the re-dial of a pool link is conditioned on progress: a link that keeps being closed before it received a frame is given up after a bounded number of attempts"
+		var cl *ssa.Function
+		for _, g := range family(join) {
+			if g == join {
+				continue
+			}
+			has := false
+			eachInstr(g, func(in ssa.Instruction) {
+				if callsNamed(in, "serve") {
+					has = true
+				}
+			})
+			if has {
+				cl = g
+			}
+		}
+		if cl == nil {
+			r.Unk(rule, key, fname(join), p.Pos(join.Pos()), inst, "the link goroutine (the closure calling serve) was not found")
+		} else {
+			var serveCall *ssa.Call
+			var dials []ssa.Instruction
+			eachInstr(cl, func(in ssa.Instruction) {
+				c, ok := in.(*ssa.Call)
+				if !ok {
+					return
+				}
+				if callsNamed(in, "serve") {
+					serveCall = c
+				}
+				// the dial function is a captured parameter: a dynamic call of a value of type gen.NetworkDial
+				if !c.Common().IsInvoke() && staticCallee(c.Common()) == nil && strings.HasSuffix(c.Common().Value.Type().String(), "gen.NetworkDial") {
+					dials = append(dials, in)
+				}
+			})
+			used := serveCall != nil && serveCall.Referrers() != nil && len(*serveCall.Referrers()) > 0
+			bounded := len(dials) > 0
+			for _, d := range dials {
+				ok := false
+				eachInstr(cl, func(in ssa.Instruction) {
+					b, isB := in.(*ssa.BinOp)
+					if !isB {
+						return
+					}
+					switch b.Op {
+					case token.LSS, token.LEQ, token.GTR, token.GEQ:
+					default:
+						return
+					}
+					_, cx := constInt(b.X)
+					_, cy := constInt(b.Y)
+					if cx == cy {
+						return
+					}
+					t, fl, _ := boolEdges(b)
+					if (len(t) > 0 && edgesDominate(t, d)) || (len(fl) > 0 && edgesDominate(fl, d)) {
+						ok = true
+					}
+				})
+				if !ok {
+					bounded = false
+				}
+			}
+			switch {
+			case len(dials) == 0:
+				r.OK(rule, key, fname(cl), p.Pos(cl.Pos()), inst, "no re-dial in the link goroutine")
+			case !used:
+				r.Bad(rule, key, fname(cl), p.Pos(cl.Pos()), inst, "the link goroutine does not look at what serve achieved: it cannot tell a link that worked from one the peer closes at once")
+			case !bounded:
+				r.Bad(rule, key, fname(cl), p.Pos(dials[0].Pos()), inst, "the re-dial is not behind a bound: when the peer has dropped the connection but keeps running, every re-dialled link is accepted and closed at once, the goroutine re-dials forever and this node never reports the peer as down")
+			default:
+				r.OK(rule, key, fname(cl), p.Pos(dials[0].Pos()), inst, "serve's result is used and the re-dial is dominated by a comparison with a constant bound")
 			}
 		}
 	}
